@@ -1,5 +1,8 @@
 import CmProofs.SourceOpt
 import CmProofs.SourceDescent
+import CmProps.C05tie
+import CmProps.C10tie
+import CmProps.C11tie
 /-!
 # C01 — the optimiser functions this property's theorems are about are the source's, as translated on this run
 
@@ -36,5 +39,34 @@ theorem source_pipeline {α : Type} [NumT α] (O : Leaf α) (t bg : RGB) (large 
   have h : (fun t bg thr target lg => CmGen.Opt.gradient_descent_oklch O t bg thr target lg 50) = gdOf O (descendImpl O) := by
     funext t bg thr target lg; exact Cm.SourceOpt.source_gradient_descent O t bg thr target lg
   rw [h]; exact Cm.SourceOpt.source_check_and_fix O (descendImpl O) t bg large mode premium
+
+/-- the leaf record `optimisation.py` actually imports, assembled from the translated numeric functions -/
+def sourceLeaf {α : Type} [NumT α] (inf : α) : Leaf α :=
+  { contrast := CmGen.Leaves.calculate_contrast_ratio, deltaE := CmGen.Leaves.calculate_delta_e_2000,
+    toOklch := CmGen.Leaves.rgb_to_oklch_safe, ofOklch := CmGen.Leaves.oklch_to_rgb_safe,
+    validRgb := CmGen.Leaves.is_valid_rgb, inf := inf }
+
+/-- … is the model's library leaf record -/
+theorem source_leaf {α : Type} [NumT α] (inf : α) : sourceLeaf inf = libLeaf inf := by
+  have h1 : (CmGen.Leaves.calculate_contrast_ratio : RGB → RGB → α) = contrastRatio := by
+    funext t b; exact CmProps.C05.source_contrast_ratio t b
+  have h2 : (CmGen.Leaves.calculate_delta_e_2000 : RGB → RGB → α) = deltaE2000 := by
+    funext c d; exact CmProps.C11.source_delta_e_2000 c d
+  have h3 : (CmGen.Leaves.rgb_to_oklch_safe : RGB → α × α × α) = rgbToOklchSafe := by
+    funext c; exact CmProps.C10.source_rgb_to_oklch_safe c
+  have h4 : (CmGen.Leaves.oklch_to_rgb_safe : α × α × α → RGB) = oklchToRgbSafe := by
+    funext t; exact CmProps.C10.source_oklch_to_rgb_safe t
+  have h5 : CmGen.Leaves.is_valid_rgb = validRgb := by
+    funext c; exact CmProps.C10.source_is_valid_rgb c
+  simp only [sourceLeaf, libLeaf, h1, h2, h3, h4, h5]
+
+/-- `source_is_executed_model`: the function the correspondence harness runs bit-for-bit against CPython
+    (`checkAndFixF`: Float carrier, library leaves, the real descent loop) is, definition by definition, the image of
+    the source as translated on this run - numeric leaves, `_safe` wrappers, searches, strategies and dispatch -/
+theorem source_is_executed_model (t bg : RGB) (large : Bool) (mode : Int) (premium : Bool) :
+    CmGen.Opt.check_and_fix_contrast_core (sourceLeaf floatInf)
+        (fun t bg thr target lg => CmGen.Opt.gradient_descent_oklch (sourceLeaf floatInf) t bg thr target lg 50)
+        t bg large mode premium = checkAndFixF t bg large mode premium := by
+  rw [source_leaf]; exact source_pipeline floatLeaf t bg large mode premium
 
 end CmProps.C01
